@@ -109,6 +109,14 @@ func Schemas(thorough bool) []string {
 			}
 		}
 	}
+	// a missing container whose subschema has several object-valued properties, only one of which
+	// leads to a default (two levels further down): the container is needed whichever is looked at first
+	for _, names := range [][3]string{{"a", "b", "c"}, {"b", "a", "c"}, {"c", "b", "a"}} {
+		x, y, z := names[0], names[1], names[2]
+		add(`{"properties":{"a":{"properties":{"` + x + `":{"properties":{"a":{"type":"integer"}}},"` + y + `":{"properties":{"b":{"default":1}}}}}}}`)
+		add(`{"properties":{"a":{"properties":{"` + x + `":{"properties":{"a":{"type":"integer"}}},"` + y + `":{"properties":{"b":{"properties":{"a":{"default":[1]}}}}},"` + z + `":{"properties":{"c":{}}}}},"b":{"default":"s"}}}`)
+		add(`{"properties":{"b":{"required":["` + z + `"],"properties":{"` + x + `":{"properties":{"a":{}}},"` + y + `":{"properties":{"b":{"default":{"a":5}}}},"` + z + `":{"properties":{"a":{"default":1}}}}}}}`)
+	}
 	// properties / required / default beside a $ref, in both drafts (draft-07 ignores the siblings of
 	// $ref when validating; the required set still says what ApplyDefaults must not fill), at the root
 	// and one level down
@@ -224,6 +232,7 @@ func Run(r *ev.Run) {
 		"struct targets and nil maps are outside the domain; no $dynamicRef in the ValidateDefaults space")
 	r.Set("schemas", len(schemas))
 	r.Set("instances", len(insts))
+	zeroValuesPresent(r)
 	var states, transitions, confl atomic.Int64
 	par.For(len(schemas), r.Expired, func(si int, j par.Journal) {
 		text := schemas[si]
@@ -443,6 +452,55 @@ func Run(r *ev.Run) {
 
 // vdSchemas: the apply trees plus defaults under other keywords and defaults
 // that violate / satisfy their own subschema in every keyword group.
+// zeroValuesPresent: a property that is present with the zero value of the map's element type
+// (0, "", false, an empty map) is present: ApplyDefaults leaves it alone and fills only the others.
+func zeroValuesPresent(r *ev.Run) {
+	type tc struct {
+		schema string
+		mk     func() any
+		want   string
+	}
+	cases := []tc{
+		{`{"properties":{"a":{"default":5},"b":{"default":7}}}`, func() any { return &map[string]int{"a": 0} }, `{"a":0,"b":7}`},
+		{`{"properties":{"a":{"default":"x"},"b":{"default":"y"}}}`, func() any { return &map[string]string{"a": ""} }, `{"a":"","b":"y"}`},
+		{`{"properties":{"a":{"default":true},"b":{"default":true}}}`, func() any { return &map[string]bool{"b": false} }, `{"a":true,"b":false}`},
+		{`{"properties":{"a":{"default":1.5},"b":{"default":2.5}}}`, func() any { return &map[gen.MyKey]float64{"a": 0, "b": 0} }, `{"a":0,"b":0}`},
+		{`{"properties":{"o":{"properties":{"a":{"default":5},"b":{"default":7}}}}}`, func() any { return &map[string]map[string]int{"o": {"a": 0}} }, `{"o":{"a":0,"b":7}}`},
+		{`{"properties":{"o":{"default":{"k":1},"properties":{"a":{"default":5}}}}}`, func() any { return &map[string]map[string]int{"o": {}} }, `{"o":{"a":5}}`},
+		{`{"properties":{"a":{"default":[1]},"b":{"default":[2]}}}`, func() any { return &map[string][]int{"a": {}} }, `{"a":[],"b":[2]}`},
+		{`{"properties":{"a":{"default":5},"b":{"default":7}}}`, func() any { var m any = map[string]any{"a": 0.0, "b": nil}; return &m }, `{"a":0,"b":null}`},
+	}
+	n := 0
+	for _, c := range cases {
+		rs, stage, err := drive.Compile(c.schema, nil)
+		if stage != "" {
+			r.Fail(c.schema, map[string]any{"class": stage, "error": err.Error()})
+			continue
+		}
+		t := c.mk()
+		key := fmt.Sprintf("zero values present: %s <- %s", c.schema, gen.Describe(t))
+		if r.OnlyKey != "" && r.OnlyKey != key {
+			continue
+		}
+		n++
+		for round := 0; round < 2; round++ { // the second application must change nothing either
+			var aerr error
+			if p := par.Call(func() { aerr = rs.ApplyDefaults(t) }); p != "" || aerr != nil {
+				r.Fail(key, map[string]any{"class": "ApplyDefaults failed", "panic": p, "error": fmt.Sprint(aerr)})
+				break
+			}
+			b, _ := json.Marshal(t)
+			if got, _ := ref.Parse(string(b)); got == nil || got.Canon() != ref.MustParse(c.want).Canon() {
+				r.Fail(key, map[string]any{"class": "a present zero value was treated as missing (or a missing one not filled)", "round": round, "want": c.want, "got": string(b)})
+				break
+			}
+		}
+	}
+	r.Eval(n)
+	r.NontrivialN(n)
+	r.Set("zero_value_cases", n)
+}
+
 func vdSchemas(trees []string) []string {
 	out := append([]string(nil), trees...)
 	subs := []string{`{"type":"integer"}`, `{"type":"string"}`, `{"enum":[1,2]}`, `{"const":0}`, `{"not":{}}`, `{"minimum":2}`, `{"type":"object","required":["a"]}`, `{"items":{"type":"integer"}}`, `{"type":["integer","null"]}`, `{"properties":{"a":{"type":"integer"}}}`, `{}`, `{"maxLength":1}`}
